@@ -169,6 +169,20 @@ def o_create(case):
              "changed from the %d spendables to %d entries" % (len(idents), len(got)))
     if tx.total_in() != inputs or tx.fee() != inputs - sum(expect):
         _bad("tx:fee-arithmetic", "%s: fee() changed to %d after the caller modified its own argument list" % (where, tx.fee()))
+    # an input is dropped from the built transaction while its recorded spent output stays behind: the inputs and their
+    # records no longer pair up, and no fee may be reported that counts a coin which funds no input
+    if len(tx.txs_in) >= 2:
+        tx.txs_in.pop()
+        for name, f in (("fee", tx.fee), ("total_in", tx.total_in)):
+            try:
+                v = f()
+            except ValueError:
+                continue
+            funded = sum(t[0] for t in idents[:-1])
+            if v != (funded - sum(expect) if name == "fee" else funded):
+                _bad("tx:fee-arithmetic:surplus-record-counted", "%s: after an input was removed (its record left in place) %s() = %d; the "
+                     "remaining inputs are worth %d, the outputs %d" % (where, name, v, funded, sum(expect)))
+        labels.append("input-dropped-record-left")
     return labels + ["built"]
 
 
